@@ -78,6 +78,75 @@ def violate(ci: int, k: int, mode: int, bad: int, parent: int, extra: int):
     return ok, applied & (not acc), "class=%s violation=%r accepted=%s" % (cls.__name__, vs[k] if 0 <= k < len(vs) else None, acc)
 
 
+# ---- class-specific verify() overrides ----------------------------------------------------------
+from saml2_tophat import saml as _saml      # noqa: E402
+
+
+def _ok_assertion(**kw):
+    d = dict(id="id-a", version="2.0", issue_instant="2020-01-02T03:04:05Z", issuer=_saml.Issuer(text="urn:i"),
+             subject=_saml.Subject(name_id=_saml.NameID(text="s")))
+    d.update(kw)
+    return _saml.Assertion(**d)
+
+
+def _authn_stmt():
+    return _saml.AuthnStatement(authn_instant="2020-01-02T03:04:05Z",
+                                authn_context=_saml.AuthnContext(authn_context_class_ref=_saml.AuthnContextClassRef(text="urn:x")))
+
+
+OVERRIDES = [
+    ("assertion with subject only", lambda: _ok_assertion(), True),
+    ("assertion with neither subject nor statement", lambda: _ok_assertion(subject=None), False),
+    ("assertion with AuthnStatement but no subject", lambda: _ok_assertion(subject=None, authn_statement=[_authn_stmt()]), False),
+    ("assertion with attribute statement and no subject", lambda: _ok_assertion(subject=None, attribute_statement=[_saml.AttributeStatement(
+        attribute=[_saml.Attribute(name="a", attribute_value=[_saml.AttributeValue(text="v")])])]), True),
+    ("conditions with one OneTimeUse", lambda: _saml.Conditions(one_time_use=[_saml.OneTimeUse()]), True),
+    ("conditions with two OneTimeUse", lambda: _saml.Conditions(one_time_use=[_saml.OneTimeUse(), _saml.OneTimeUse()]), False),
+    ("conditions with two ProxyRestriction", lambda: _saml.Conditions(proxy_restriction=[_saml.ProxyRestriction(), _saml.ProxyRestriction()]), False),
+    ("authn context with class ref", lambda: _saml.AuthnContext(authn_context_class_ref=_saml.AuthnContextClassRef(text="urn:x")), True),
+    ("authn context with decl and decl ref", lambda: _saml.AuthnContext(authn_context_decl=_saml.AuthnContextDecl(text="d"),
+                                                                        authn_context_decl_ref=_saml.AuthnContextDeclRef(text="urn:r")), False),
+    ("subject locality with IPv4", lambda: _saml.SubjectLocality(address="192.0.2.7"), True),
+    ("subject locality with IPv6", lambda: _saml.SubjectLocality(address="2001:db8::1"), True),
+    ("subject locality with garbage address", lambda: _saml.SubjectLocality(address="not-an-address"), False),
+    ("attribute value with text", lambda: _saml.AttributeValue(text="v"), True),
+    ("attribute value without text marked nil", lambda: _saml.AttributeValue(), True),
+]
+
+
+def overrides(case: int, nested: bool):
+    """The class-specific verify() rules (Assertion, Conditions, AuthnContext, SubjectLocality,
+    AttributeValue), at the root and nested inside a Response / Assertion."""
+    from veriflib.boot import concrete
+    case, nested = concrete(case), concrete(nested)
+    name, mk, valid = OVERRIDES[case]
+    inst = mk()
+    top = inst
+    if nested:
+        if isinstance(inst, _saml.Assertion):
+            from saml2_tophat import samlp as _samlp
+            top = _samlp.Response(id="id-r", version="2.0", issue_instant="2020-01-02T03:04:05Z",
+                                  status=_samlp.Status(status_code=_samlp.StatusCode(value=_samlp.STATUS_SUCCESS)), assertion=[inst])
+        elif isinstance(inst, _saml.Conditions):
+            top = _ok_assertion(conditions=inst)
+        elif isinstance(inst, _saml.AuthnContext):
+            top = _ok_assertion(authn_statement=[_saml.AuthnStatement(authn_instant="2020-01-02T03:04:05Z", authn_context=inst)])
+        elif isinstance(inst, _saml.SubjectLocality):
+            st = _authn_stmt()
+            st.subject_locality = inst
+            top = _ok_assertion(authn_statement=[st])
+        elif isinstance(inst, _saml.AttributeValue):
+            top = _saml.Attribute(name="a", attribute_value=[inst])
+    try:
+        r = top.verify()          # the entry point that applies the class-specific rules to the root as well
+        acc = r is not False      # AttributeValue.verify() returns None on success
+    except Exception:
+        acc = False
+    except AssertionError:
+        acc = False
+    return acc == valid, True, "%s: accepted=%s" % (name, acc)
+
+
 def _parts(idx):
     return [{"ci": i} for i in idx]
 
@@ -110,6 +179,12 @@ CONDITIONS = [
                 "XSD lexical space; child count min-1-extra / max+1+extra, extra <= 2) violated one at a time inside an otherwise valid generated instance, "
                 "at the root and nested under up to 3 possible parents; k = -1 is the all-valid instance. quick: saml, samlp, md, xmldsig, xmlenc plus every class of any module with an enumerated type or an occurrence bound >= 2; thorough: all schema modules"),
 ]
+
+CONDITIONS.append(
+    Cond(name="overrides", fn="overrides", params=[("case", "int"), ("nested", "bool")], pre=["0 <= case < %d" % len(OVERRIDES)],
+         partitions={"quick": [{}]}, timeout={"quick": 300, "thorough": 300}, path_timeout=60,
+         functions=["saml.AssertionType_.verify", "saml.ConditionsType_.verify", "saml.AuthnContextType_.verify", "saml.SubjectLocality.verify", "saml.AttributeValueBase.verify"],
+         bounds="%d hand-built valid / invalid instances for the five class-specific verify() rules, at the root and nested under their parent" % len(OVERRIDES)))
 
 ASSUMPTIONS = [
     "valid instances come from a simple generator (harness/schemagen.py); a class whose generated instance the real validator rejects is excluded by name: "
